@@ -222,3 +222,63 @@ class Facts:
     def __repr__(self):
         return 'Facts(ge0=[%s]; subs=[%s])' % ('; '.join(map(repr, self.ge0)),
                                                 '; '.join('%s:=%r' % s for s in self.subs))
+
+
+def from_ast(fn, i, depth=0):
+    """LinExpr of an integer expression of function `fn` over symbols named after locals / members (single-assignment
+    locals with a pure initialiser are expanded: a named sub-expression is transparent); None if not linear"""
+    j = fn.strip(i)
+    if j is None or j < 0 or depth > 8:
+        return None
+    n = fn.nodes[j]
+    k = n['k']
+    if k in ('CXXStaticCastExpr', 'CStyleCastExpr', 'CXXFunctionalCastExpr') and n.get('ch'):
+        return from_ast(fn, n['ch'][0], depth + 1)
+    if 'v' in n and isinstance(n['v'], int) and k != 'DeclRefExpr':
+        return LinExpr(n['v'])
+    if k == 'DeclRefExpr':
+        vid = n.get('id')
+        if vid in fn.single_defs:
+            init = fn.single_defs[vid]
+            pure = not any(fn.nodes[d]['k'] in ('CallExpr', 'CXXMemberCallExpr', 'CXXOperatorCallExpr',
+                                                 'CXXConstructExpr', 'LambdaExpr') for d in fn.descendants(init))
+            if pure:
+                r = from_ast(fn, init, depth + 1)
+                if r is not None:
+                    return r
+        if 'v' in n and isinstance(n['v'], int) and vid is None:
+            return LinExpr(n['v'])
+        return LinExpr.sym(n['dn'].split('::')[-1])
+    if k == 'MemberExpr':
+        return LinExpr.sym(fn.text(j))
+    if k == 'UnaryOperator' and n.get('op') == '-':
+        a = from_ast(fn, n['ch'][0], depth + 1)
+        return -a if a is not None else None
+    if k == 'BinaryOperator' and n.get('op') in ('+', '-'):
+        a, b = from_ast(fn, n['ch'][0], depth + 1), from_ast(fn, n['ch'][1], depth + 1)
+        if a is None or b is None:
+            return None
+        return a + b if n['op'] == '+' else a - b
+    if k == 'BinaryOperator' and n.get('op') == '*':
+        a, b = from_ast(fn, n['ch'][0], depth + 1), from_ast(fn, n['ch'][1], depth + 1)
+        if a is not None and b is not None:
+            if a.is_const():
+                return b.scale(a.c)
+            if b.is_const():
+                return a.scale(b.c)
+        return None
+    return None
+
+
+def difference(fn, i):
+    """for a comparison node a <op> b: (op, LinExpr(a - b)) or None"""
+    j = fn.strip(i)
+    if j is None or j < 0:
+        return None
+    n = fn.nodes[j]
+    if n['k'] != 'BinaryOperator' or n.get('op') not in ('==', '!=', '<', '>', '<=', '>='):
+        return None
+    a, b = from_ast(fn, n['ch'][0]), from_ast(fn, n['ch'][1])
+    if a is None or b is None:
+        return None
+    return n['op'], a - b
